@@ -35,7 +35,12 @@ LEVEL = "proof"
 RULE = ("a case is one operation of a generated call history over a pool of 6-8 generated documents that share "
         "object numbers, font resource names (/F1 is a different font per document, page and form XObject), base "
         "encodings with different /Differences, predefined CMap names, ToUnicode maps, inherited/shared/own "
-        "resources, object streams and RC4 encryption; operations: extract_text / extract_pages / "
+        "resources, object streams, Flate-compressed and shared content streams and RC4 encryption; systematically "
+        "per pool: every base-encoding spelling (4 known names, an unknown name, none) with non-empty /Differences, as a "
+        "name and absent, every simple font type, every predefined CMap; per document: page 0 ends with unpainted path "
+        "segments / unbalanced q / changed line width / dangling operands, later pages begin with a stray Q and painted "
+        "shapes, use font and XObject names only the previous page defines, show text before any Tf; observables "
+        "include shapes (LTRect/LTLine/LTCurve with points, width, colours, original path); operations: extract_text / extract_pages / "
         "extract_text_to_fp(text,xml,html,tag) / open-next-close of interleaved page iterators (public generator "
         "and an introspectable pipeline) / page-at-a-time / CMapParser usecmap, each with caching on or off, page "
         "subsets and 4 LAParams variants; distinct = distinct (document bytes, operation, options, position in "
@@ -78,6 +83,9 @@ STATEMENT_STATUS: Dict[str, str] = {
     "C12_next_frame": "proved: next() on one iterator leaves every other iterator untouched",
     "C12_open_todo": "proved",
     "C12_interleaving": "proved: outputs addressed to iterator hid in ANY history = the same operations run alone from init",
+    "C12_interp_reset": "proved: whatever the interpreter was left with by the previous page (unpainted path, unbalanced q, line width, dangling operands), the next page's result is the fresh page",
+    "C12_interp_left_independent": "proved: what a page leaves behind does not depend on what it found",
+    "curpath_leak_cex": "proved counter-example: init_state without the reset of the current path leaks a shape into the next page",
     "C12_cmap_copy": "proved: extending a private CMap built with usecmap leaves the shared CMap = fresh load",
     "nocopy_cex": "proved counter-example: get_encoding without the copy leaks /Differences into later fonts",
     "shared_cache_cex": "proved counter-example: a memo table answered under another document's fresh function returns the other document's value (font cache keyed by name / manager shared across documents)",
@@ -91,7 +99,20 @@ CLASSIFIERS: Dict[str, Any] = {}
 LA_NAMES = ["default", "noflow", "vert", "tight"]
 
 
+_LA_CACHE: Dict[str, Any] = {}
+
+
 def la_of(name: str):
+    """One LAParams object per variant for the whole process: passing the same options object to many
+    calls must not matter either."""
+    if name == "default":
+        return None
+    if name not in _LA_CACHE:
+        _LA_CACHE[name] = _la_new(name)
+    return _LA_CACHE[name]
+
+
+def _la_new(name: str):
     from pdfminer.layout import LAParams
     if name == "default":
         return None
@@ -107,7 +128,7 @@ def la_of(name: str):
 # ----------------------------------------------------------------------------- canonical results
 
 def canon_item(it, out: List[Any]) -> None:
-    from pdfminer.layout import LTAnno, LTChar, LTPage, LTTextBox
+    from pdfminer.layout import LTAnno, LTChar, LTCurve, LTPage, LTTextBox
     if isinstance(it, LTAnno):
         out.append(("A", it.get_text()))
         return
@@ -115,6 +136,10 @@ def canon_item(it, out: List[Any]) -> None:
     if isinstance(it, LTChar):
         rec += [it.get_text(), it.fontname, repr(it.size), repr(tuple(it.matrix)), repr(it.adv), it.upright,
                 getattr(getattr(it, "ncs", None), "name", None), repr(getattr(it.graphicstate, "ncolor", None))]
+    if isinstance(it, LTCurve):
+        rec += [repr(it.pts), repr(it.linewidth), it.stroke, it.fill, it.evenodd, repr(it.stroking_color),
+                repr(it.non_stroking_color), repr(getattr(it, "original_path", None)),
+                repr(getattr(it, "dashing_style", None))]
     if isinstance(it, LTTextBox):
         rec.append(it.index)
     if isinstance(it, LTPage):
@@ -209,8 +234,10 @@ class LLHandle:
         class Tee(PDFPageAggregator):
             def end_page(self, page):                       # glyphs in paint order, before layout analysis
                 outer.glyphs = flat_glyphs(self.cur_item)
+                outer.shapes = flat_shapes(self.cur_item)
                 return super().end_page(page)
         self.glyphs: List[str] = []
+        self.shapes: List[str] = []
         self.dev = Tee(self.rsrc, laparams=la_of(la) or LAParams())
         self.interp = PDFPageInterpreter(self.rsrc, self.dev)
         self.it = enumerate(PDFPage.create_pages(self.pdoc))
@@ -247,6 +274,12 @@ def flat_glyphs(item) -> List[str]:
                 rec(c)
     rec(item)
     return out
+
+
+def flat_shapes(item) -> List[str]:
+    """painted shapes of the page's own content in paint order: segments:linewidth"""
+    from pdfminer.layout import LTCurve
+    return ["%d:%d" % (len(it.original_path or []), int(it.linewidth)) for it in item if isinstance(it, LTCurve)]
 
 
 def collapse(gs: List[str]) -> str:
@@ -672,7 +705,7 @@ class Exec:
                     if hk == "ll":
                         r = hd.next()
                         got = None if r is None else r[1]
-                        glyphs = "done" if r is None else "page " + collapse(hd.glyphs)
+                        glyphs = "done" if r is None else "page " + collapse(hd.glyphs) + " " + (",".join(hd.shapes) or "-")
                         obs = self.ll_state(hd)
                     else:
                         try:
@@ -717,8 +750,12 @@ class Exec:
     @staticmethod
     def ll_state(hd: LLHandle) -> str:
         st = hd.state()
+        ip = hd.interp
+        left = "-"
+        if hasattr(ip, "gstack"):      # init_state has run at least once
+            left = "%d.%d.%d.%d" % (len(ip.curpath), len(ip.gstack), int(ip.graphicstate.linewidth), len(ip.argstack))
         return "objs=" + ",".join(map(str, st["objs"])) + " pobjs=" + ",".join(map(str, st["pobjs"])) + \
-            " fonts=" + ",".join(map(str, st["fonts"]))
+            " fonts=" + ",".join(map(str, st["fonts"])) + " interp=" + left
 
     def cmapparse(self, idx: int, name: str, tags) -> None:
         """The anchored copy mechanism CMap.use_cmap: build a private CMap on top of a shared one
@@ -860,6 +897,8 @@ def run_pool(ctx: C.Ctx, seed: str, size: int, nhist: int, hist_len: int) -> Non
     for d in docs:
         for f in d.features:
             ctx.branch("doc:" + f)
+    for f in docs[0].plan_seen:
+        ctx.branch("plan:" + f)
     base = baselines(docs, las)
     if ctx.tier == "thorough":
         base2 = baselines(docs, las, reverse=True)
@@ -956,6 +995,9 @@ def doc_tokens(d: P.Doc, cm: NameIds, um: NameIds, gidx: Dict[str, int]) -> List
             idx = next(i for i, (_n, _o, f) in enumerate(pf) if f is fd)
             codes = show_codes(fd, s, cm)
             t += [idx, len(codes)] + codes
+        t.append(len(d.page_gops[k]))
+        for code, v in d.page_gops[k]:
+            t += [code, v]
     return t
 
 
@@ -1040,15 +1082,19 @@ def model_check(ctx: C.Ctx, seed: str, docs, ops, ex) -> None:
             return
         ctx.branch("tie:tables")
         if obs["caches"] is not None:
-            got = " ".join(f"{k}={fields.get(k, '')}" for k in ("objs", "pobjs", "fonts"))
-            if got != obs["caches"]:
-                ctx.disagree("c12.caches", inp, obs["caches"], got)
+            got = " ".join(f"{k}={fields.get(k, '')}" for k in ("objs", "pobjs", "fonts", "interp"))
+            want = obs["caches"]
+            if want.endswith("interp=-"):          # no page interpreted yet: the model starts from Interp.init
+                want = want[:-1] + "0.0.0.0"
+            if got != want:
+                ctx.disagree("c12.caches", inp, want, got)
                 return
             ctx.branch("tie:caches")
         if obs["glyphs"] is not None:
             mg = parts[0]
             if mg.startswith("page "):
-                mg = "page " + collapse(mg[5:].split(",") if mg[5:] != "-" else [])
+                gl, sh = mg[5:].split(" ")
+                mg = "page " + collapse(gl.split(",") if gl != "-" else []) + " " + sh
             if mg != obs["glyphs"]:
                 ctx.disagree("c12.glyphs", inp, obs["glyphs"], mg)
                 return
